@@ -195,7 +195,7 @@ def classify(inp):
     return inp.get("sim", "")
 
 
-BUDGET = dict(quick=240, thorough=1000)
+BUDGET = dict(quick=240, thorough=900)
 
 
 def harnesses(tier):
